@@ -147,8 +147,6 @@ func errCode(err error) string {
 	return ""
 }
 
-var c02parser *parsers.ExpressionParser
-
 // event input: entry, texts (list of vocabulary texts; constants/variables are made distinct by position)
 func execC02(seg []Ev) []Ev {
 	out := make([]Ev, 0, len(seg))
@@ -184,15 +182,8 @@ func execC02(seg []Ev) []Ev {
 			lex = append(lex, tokenizers.NewToken(v.typ, text, 1, i+1))
 			toks = append(toks, []string{v.kind, ktext})
 		}
-		// ParseTokens clears the whole parser state (history independence is C05's subject), so one
-		// instance serves all token-level cases; ParseString gets a fresh parser with a fresh lexer
-		p := c02parser
-		if entry != "tokens" || p == nil {
-			p = parsers.NewExpressionParser()
-			if entry == "tokens" {
-				c02parser = p
-			}
-		}
+		// a fresh parser per case: every observation must be reproducible in isolation (history independence is C05's subject)
+		p := parsers.NewExpressionParser()
 		var err error
 		oc, det := guarded(func() {
 			if entry == "tokens" {
